@@ -87,7 +87,9 @@ class P(Prop):
                         ts = [tiny(), tiny(), knot[0]]
                     else:
                         import math
-                        sw = lambda: math.exp(-rng.choice([-1.71, 1.72]) + rng.uniform(-1e-3, 1e-3))
+                        from props.c10 import threshold_args
+                        thr = threshold_args()
+                        sw = lambda: rng.choice(thr) if rng.random() < 0.7 else math.exp(-rng.choice([-1.71, 1.72]) + rng.uniform(-1e-3, 1e-3))
                         knot = [rng.choice([1.0, sw()]), rng.choice([0.0, 2.0])]
                         ts = [sw(), sw(), knot[0]]
                     out.append(dict(op="integral_eval", ty="Log<Poly4>", cs=[C.bits(x) for x in cs], knot=[C.bits(x) for x in knot],
